@@ -88,6 +88,19 @@ def packSpecL (L : Nat) (m : Nat) (e : Int) (st : Bool) : Nat :=
 
 def packSpec64 (m : Nat) (e : Int) (st : Bool) : Nat := packSpecL (Nat.log2 m + 1) m e st
 
+/-- The correctly rounded (nearest-even) binary64 magnitude bits of the exact value `N·2^(E−52)`,
+for ANY integer `N > 0`: scale `N` up by 2^52 (exact) so that it has at least 53 bits, then round. -/
+def roundInt64 (N : Nat) (E : Int) : Nat := packSpecL (Nat.log2 N + 53) (N * 2^52) (E - 52) false
+
+
+/-- The correctly rounded sum of two finite non-zero binary64 values given by their unpacked
+(sign, 53-bit mantissa, exponent) triples, the first one being the larger in magnitude
+(`(ge, gm) ≤ (fe, fm)`): the exact sum is `±N·2^(ge−2−52)` with the integer `N` below;
+an exact zero is `+0`, otherwise the sign is that of the larger operand. -/
+def sumSpec64 (fs fm fe gs gm ge : BitVec 64) : BitVec 64 :=
+  let sh := (fe.toInt - ge.toInt).toNat
+  let N := if fs = gs then 4 * fm.toNat * 2^sh + 4 * gm.toNat else 4 * fm.toNat * 2^sh - 4 * gm.toNat
+  if N = 0 then 0#64 else fs ||| BitVec.ofNat 64 (roundInt64 N (ge.toInt - 2))
 
 /-! ## The reference semantics: IEEE-754 values as rationals and round-to-nearest-even
 
